@@ -264,6 +264,8 @@ def clashing_variants(rnd, c0, call):
             if not spec[2]:
                 continue
             yield "undeclared-shared-gate-same-label", dict(call, sub_spec=spec, outputs_mapping={k: v for k, v in om.items() if k != host_lab})
+    # the replacement carries an input that nothing reads and that the caller left out of the mapping
+    yield "unmapped-dangling-input", dict(call, sub_spec=(list(ins) + ["spare_input_of_the_replacement"], list(gates), list(outs)))
     # a gate of the replaced region that is an output of the whole circuit is *not* declared, and the replacement owns
     # an inner gate of that very label computing something else (its declared outputs stay equivalent)
     if len(om) >= 2 and ins:
